@@ -11,6 +11,7 @@ from symfc.utils.permutation_tools import (
     get_combinations,
 )
 from symfc.utils.solver_funcs import get_batch_slice
+from symfc.utils._verif_hooks import verif_int
 from symfc.utils.utils import get_indep_atoms_by_lat_trans
 from symfc.utils.utils_O3 import get_atomic_lat_trans_decompr_indices_O3
 
@@ -74,6 +75,7 @@ def compr_permutation_lat_trans_O3(
 
     if n_batch is None:
         n_batch = 1 if natom <= 128 else int(round((natom / 128) ** 2))
+        n_batch = verif_int("SYMFC_VERIF_PERM_NBATCH", n_batch)
 
     perm_decompr_idx = np.ones(NNN27 // n_lp, dtype="int") * -1
     indep_atoms = get_indep_atoms_by_lat_trans(trans_perms)
